@@ -279,10 +279,28 @@ def invariants(m, hist, parent_hash=None, hash_=None, item=None):
     # I7 deletions undo their insertions
     if len(hist) >= 2 and UNDOES.get(hist[-1]) == hist[-2] and item is not None:
         gp = _grandparent_hash(item["init"], hist[:-2])
-        if gp is not None and gp[1] and gp[0] != hash_:
+        if gp is not None and _undo_is_exact(hist[-1], gp[2]) and gp[0] != hash_:
             d = canon.diff(gp[2], canon.snapshot(m))
             errs.append(("I7_undo", f"{_opkind(hist[-1])}_does_not_undo", f"differs at {d[:5]}"))
     return errs
+
+
+def _undo_is_exact(del_op, snap):
+    """A delete_* only has to restore the state before its insert-like partner if nothing of that kind existed before
+    (otherwise the delete legitimately removes the earlier items too)."""
+    kind = _opkind(del_op)
+    if kind == "delrec":
+        return not snap["recordings"]["cols"]
+    if kind == "delstim":
+        return "i" not in snap["externals"]
+    if kind == "delclamp":
+        return not [k for k in snap["externals"] if k != "i"]
+    if kind == "deltrain":
+        return not snap["trainable_params"]
+    if kind == "del":
+        name = del_op[2:].split("_")[1] if del_op.startswith("n_") else del_op.split("_")[1]
+        return name not in snap["channels"]
+    return True
 
 
 def _opkind(op):
